@@ -403,8 +403,9 @@ def cmd_eq(ctx):
     # the runner: Ok only under status.success()
     for rn in runners:
         b = f.coroutine_of(rn)
-        G = guard_region(b, lambda d: d[0] == "call" and d[1].endswith("ExitStatus::success"), True)
-        oks = [(bb, st) for (bb, st) in b.aggregates("Result", "Ok")]
+        G, _ = success_region(f, f.view(b))
+        b = f.view(b)
+        oks = [(bb, st) for (bb, st) in b.aggregates("Result", "Ok") if b.origin(bb) == b.name]
         ctx.need(oks, "Ok construction in the command runner")
         for (bb, st) in oks:
             ctx.check(bb in G, f"{short(rn)}/ok-only-on-success", [site(b, bb)], "the command runner reports Ok for a command that did not exit successfully")
@@ -553,22 +554,27 @@ def key_injective(ctx):
     runners = cmd_state_bodies(ctx)
     writers, readers = [], []
     scope_fns = {ctx.r.outer_fn(b).name for b in f.user_bodies() if any(a.callee in runners for a in awaits(b))}
+    # ... and the functions given the list of command resources (the recording may obtain the outputs through a helper)
+    scope_fns |= {ctx.r.outer_fn(b).name for b in f.user_bodies() if any(re.search(r"&\[[\w:]*CmdResource\]", l["ty"]) for l in b.locals[1:b.argc + 1])}
     for b in f.user_bodies():
         if ctx.r.outer_fn(b).name not in scope_fns:
             continue
         for bb, t in b.calls():
-            if re.search(r"HashMap::<.*>::get(::<.*>)?$", callee_decl(t)) and "String" in callee_decl(t):
-                at = b.prov.operand_atoms(t["args"][1])
-                readers.append((b, bb, atom_fields(at, "CmdResource")))
+            # any keyed access of a map whose key is made from a command resource
+            if re.search(r"(HashMap|BTreeMap)<.*>(::<.*>)?::(get|get_mut|contains_key|remove|entry|insert|get_key_value)(::<.*>)?$|(HashMap|BTreeMap)::<.*>::(get|get_mut|contains_key|remove|entry|insert|get_key_value)(::<.*>)?$", callee_decl(t)) \
+                    or (re.search(r"ops::Index<.*>>::index$", callee_decl(t)) and re.search(r"(HashMap|BTreeMap)<", callee_decl(t))):
+                if len(t["args"]) > 1:
+                    fl = atom_fields(b.prov.operand_atoms(t["args"][1]), "CmdResource")
+                    if fl:
+                        readers.append((b, bb, fl))
         for blk in b.normal_blocks():
             for st in blk["stmts"]:
                 rv = st["rv"]
-                if rv["k"] == "agg" and rv.get("tuple") and len(rv["ops"]) == 2 and "String" in st["lhs"]["ty"]:
-                    o = rv["ops"][0]
-                    at = b.prov.operand_atoms(o)
-                    fl = atom_fields(at, "CmdResource")
-                    if fl and st["lhs"]["ty"].endswith("std::string::String)"):
-                        writers.append((b, blk["id"], fl))
+                if rv["k"] == "agg" and rv.get("tuple") and len(rv["ops"]) == 2:
+                    fl = atom_fields(b.prov.operand_atoms(rv["ops"][0]), "CmdResource")
+                    # a (key, value) pair: the first component is made from a command resource, the second is not the very same thing
+                    if fl and rv["ops"][0] != rv["ops"][1] and (st["lhs"]["local"] == 0 or 0 in b.prov.flows_forward(st["lhs"]["local"])):
+                        writers.append((b, blk["id"], fl))   # (only pairs the body yields: the arguments of a log line are a tuple too)
     if not readers and not writers:
         ctx.ok("no-keyed-lookup", [], "the recorded command outputs are not a keyed map: no collision possible")
         return
@@ -662,15 +668,25 @@ def completed_only_success(ctx):
     srs = ctx.r.script_runners()
     ctx.need(srs, "script runner (constructs BuildTerminationReport::Completed)")
     for b in srs:
-        G = guard_region(b, lambda d: d[0] == "call" and d[1].endswith("ExitStatus::success"), True)
-        Gf = guard_region(b, lambda d: d[0] == "call" and d[1].endswith("ExitStatus::success"), False)
+        G, _ = success_region(ctx.f, b)
         for (bb, st) in b.aggregates("BuildTerminationReport", "Completed"):
             ctx.check(bb in G, f"{short(b.name)}/Completed", [site(b, bb)], "a build is reported Completed without a true `ExitStatus::success()`")
-        # the false edge returns Err
-        errs = [bb for bb, t in b.calls() if bb in Gf and (re.search(r"anyhow::(Error::msg|__private::format_err|Error::new)", callee_base(t)) or "anyhow" in callee_base(t))]
-        ret_err = [bb for (bb, st) in b.aggregates("Result", "Err") if bb in Gf]
-        ctx.check(bool(Gf) and bool(ret_err) and not any(bb in Gf for (bb, st) in b.aggregates("Result", "Ok")), f"{short(b.name)}/nonzero-is-Err", [site(b, x) for x in ret_err] or [b.loc()],
-                  "a non-zero exit status does not make the script runner return Err")
+        # a status that is not a success makes the function that tests it return Err: judged in the body the test is written in (the runner itself or a
+        # `check(status)?` helper), on its own code
+        testers = [x for x in ctx.f.user_bodies() if exit_success_edges(ctx.f.view(x))[0] and (x.name == ctx.f.bodies[b.name].name or ctx.r.fn_of(x).name in ctx.f.cg.reach([ctx.r.fn_of(b).name], cross_spawn=False))
+                   and ctx.f.view(x).origin(exit_success_edges(ctx.f.view(x))[0][0].src) == x.name]
+        okf = bool(testers)
+        where = []
+        for x in testers:
+            xv = ctx.f.view(x)
+            _, F = success_region(ctx.f, xv)
+            ret_err = [bb for (bb, st) in xv.aggregates("Result", "Err") if bb in F and xv.origin(bb) == x.name]
+            ok_in_f = [bb for (bb, st) in xv.aggregates("Result", "Ok") if bb in F and xv.origin(bb) == x.name] if x.name != ctx.f.bodies[b.name].name else \
+                      [bb for (bb, st) in xv.aggregates("BuildTerminationReport", "Completed") if bb in F]
+            where += [site(xv, y) for y in ret_err]
+            if not (F and ret_err and not ok_in_f):
+                okf = False
+        ctx.check(okf, f"{short(b.name)}/nonzero-is-Err", where or [b.loc()], "a non-zero exit status does not make the script runner return Err")
         # Cancelled only in the cancellation arm
         arms = arm_by_payload(b, lambda p: "BuildCancellationMessage" in p)
         ctx.need(arms, "cancellation arm in the script runner")
@@ -841,6 +857,7 @@ def snapshot_order(ctx):
       set/map typed (a file covered by two overlapping resources is counted once on both sides, otherwise the target is never skipped)""", "K5", floor=1)
 def cardinality_over_sets(ctx):
     for b in file_state_eq_bodies(ctx):
+        b = ctx.f.view(b)   # with the lister spliced in: where the listed collection comes from is visible
         lens = [(bb, t) for bb, t in b.calls() if callee_base(t).endswith("::len")]
         if not lens:
             ctx.ok(f"{short(b.name)}/no-cardinality-test", [b.loc()], "no cardinality comparison at all (its absence is C02.FS-EQ's business, it cannot cause spurious rebuilds)")
@@ -859,7 +876,26 @@ def cardinality_over_sets(ctx):
         if len(cmp_lens) < 2:
             ctx.ok(f"{short(b.name)}/no-cardinality-test", [b.loc()], "no cardinality comparison between two collections")
             continue
-        bad = [t for t in cmp_lens if not re.search(r"(HashSet|HashMap|BTreeSet|BTreeMap)::<", callee_decl(t))]
+        SETTY = r"(HashSet|HashMap|BTreeSet|BTreeMap)<"
+        def dedup(l, depth=0):
+            """the collection in local l holds distinct elements: it is a set/map, or it was collected (element-preservingly) from one"""
+            if l is None or depth > 12:
+                return False
+            if re.search(SETTY, b.locals[l]["ty"]):
+                return True
+            os_ = [o for o in origins(b, l) if o[0] != "await"] or origins(b, l)
+            if not os_:
+                return False
+            for o in os_:
+                if o[0] == "call" and re.search(r"::(collect|from_iter|into_iter|iter|cloned|copied|map|to_vec|to_owned|clone|into|from|deref|as_slice|as_ref|borrow|sorted|rev)(::<.*>)?$", o[1]) and o[3]["args"]:
+                    if not dedup(operand_local(o[3]["args"][0]), depth + 1):
+                        return False
+                elif o[0] == "field" and len(o[1]) == 1 and o[1][0] in ("0",):
+                    continue  # newtype wrapper around the recorded map: judged by the len() callee's own type below
+                else:
+                    return False
+            return True
+        bad = [t for t in cmp_lens if not re.search(r"(HashSet|HashMap|BTreeSet|BTreeMap)::<", callee_decl(t)) and not dedup(operand_local(t["args"][0]) if t["args"] else None)]
         ctx.check(not bad, f"{short(b.name)}/len-of-sets", [b.loc()], "the cardinality comparison counts a non-deduplicated collection (" + ", ".join(callee_decl(t)[:60] for t in bad) + "): overlapping resources make the counts differ for ever and the target is rebuilt on every run")
 
 
@@ -892,12 +928,15 @@ _PLAIN_ADAPTORS = re.compile(r"(::iter$|::into_iter$|::cloned$|::copied$|::map(:
 def all_resources_compared(ctx):
     f = ctx.f
     runners = cmd_state_bodies(ctx)
-    scope_fns = {ctx.r.outer_fn(b).name for b in f.user_bodies() if any(a.callee in runners for a in awaits(b))} - runners
+    scope_fns = {ctx.r.outer_fn(b).name for b in f.user_bodies() if any(a.callee in runners for a in awaits(b))}
+    scope_fns |= {ctx.r.outer_fn(b).name for b in f.user_bodies() if any(re.search(r"&\[[\w:]*CmdResource\]", l["ty"]) for l in b.locals[1:b.argc + 1])}
+    scope_fns -= runners
     n = 0
     for fn in sorted(scope_fns):
         b = f.coroutine_of(fn)
         if b is None:
             continue
+        slice_params = {l.get("name") for l in f.bodies[fn].locals[1:f.bodies[fn].argc + 1] if re.search(r"&\[[\w:]*CmdResource\]", l["ty"])}
         # the iterator handed to try_join_all / all / join_all
         for bb, t in b.calls():
             if re.search(r"future::try_join_all|future::join_all|async_utils::all$", callee_base(t)) or (callee_base(t) in f.bodies and f.bodies[callee_base(t)].ret.startswith("impl futures::Future<Output = bool>")):
@@ -905,7 +944,7 @@ def all_resources_compared(ctx):
                     continue
                 n += 1
                 at = b.prov.operand_atoms(t["args"][0], interproc=False)
-                from_param = any(a[0] == "field" and a[1].startswith("{env of") and "cmds" in a[2] for a in at)
+                from_param = any(a[0] == "field" and a[1].startswith("{env of") and a[2] in slice_params for a in at)
                 odd = sorted(c for c in atom_callres(at) if not _PLAIN_ADAPTORS.search(c) and c not in runners)
                 ctx.check(from_param and not odd, f"{short(fn)}/over-all-cmds", [site(b, bb)],
                           ("the per-command futures are not built from the `cmds` parameter" if not from_param else f"the declared commands pass through {odd} before being run: some command resource may never be run or compared"))
